@@ -9,7 +9,11 @@ pub fn check_layout(module: &Module) -> Result<(), LayoutError> {
     let mut types_seen = HashSet::new();
 
     for global in &module.global_registry {
-        let ty = module.type_registry.remove_modifier(global.type_id);
+        let mut ty = module.type_registry.remove_modifier(global.type_id);
+        // Each buffer of an array of buffers has the element type to check
+        while let TypeLayer::Array(inner, _) = module.type_registry.get_type_layer(ty) {
+            ty = module.type_registry.remove_modifier(inner);
+        }
         let tyl = module.type_registry.get_type_layer(ty);
         let o = match tyl {
             TypeLayer::Object(o) => o,
